@@ -224,3 +224,102 @@ func ruleConfigDecode(c *Ctx, rule string) {
 		c.ob(rule, fn, "both ends are parsed as addresses", nil, nilIP >= 3, fmt.Sprintf("%d net.ParseIP calls (first, last, single)", nilIP))
 	}
 }
+
+// C18.R6 — paging parameters parsed from a request are clamped to a constant range before any arithmetic
+// (page*size feeds a slice bound: without an upper bound it overflows to a negative index).
+func rulePagingClamped(c *Ctx, rule string) {
+	for _, name := range []string{"ParsePage", "ParseSize"} {
+		fn := c.MustFn(rule, "pkg/utils/page", name)
+		if fn == nil {
+			continue
+		}
+		at := calls(fn, "strconv.Atoi")
+		if len(at) != 1 {
+			c.undecided(rule, fn, "strconv.Atoi", nil, "expected one Atoi call")
+			continue
+		}
+		var raw ssa.Value
+		for _, ref := range *at[0].Value().Referrers() {
+			if ex, ok := ref.(*ssa.Extract); ok && ex.Index == 0 {
+				raw = ex
+			}
+		}
+		cmpConst := func(ops ...token.Token) []edge {
+			// edges on which `raw OP const` is FALSE (i.e. the bound holds)
+			return guardEdges(fn, func(v ssa.Value) (bool, int) {
+				bo, ok := v.(*ssa.BinOp)
+				if !ok || bo.X != raw {
+					return false, 0
+				}
+				if _, isC := bo.Y.(*ssa.Const); !isC {
+					return false, 0
+				}
+				for _, op := range ops {
+					if bo.Op == op {
+						return true, 1
+					}
+				}
+				return false, 0
+			})
+		}
+		upper := cmpConst(token.GTR, token.GEQ)
+		lower := cmpConst(token.LSS, token.LEQ)
+		// find the phi edges that carry the raw value to the return
+		n, ok := 0, true
+		var visit func(v ssa.Value, seen map[ssa.Value]bool)
+		visit = func(v ssa.Value, seen map[ssa.Value]bool) {
+			if seen[v] {
+				return
+			}
+			seen[v] = true
+			if v == raw {
+				// returned directly without any merge: unguarded
+				n++
+				ok = false
+				return
+			}
+			ph, isPhi := v.(*ssa.Phi)
+			if !isPhi {
+				return
+			}
+			for i, e := range ph.Edges {
+				if e == raw {
+					n++
+					pred := ph.Block().Preds[i]
+					// the edge itself may be the guard edge: test reachability of the phi block via this pred only
+					// through both bounds: remove bound edges and see whether pred->phi is still reachable
+					cutU := newCut().edge(upper...)
+					cutL := newCut().edge(lower...)
+					if predEdgeReachable(fn, pred, ph.Block(), cutU) || predEdgeReachable(fn, pred, ph.Block(), cutL) || len(upper) == 0 || len(lower) == 0 {
+						ok = false
+					}
+				} else {
+					visit(e, seen)
+				}
+			}
+		}
+		for _, ret := range returns(fn) {
+			visit(retVal(ret, 0), map[ssa.Value]bool{})
+		}
+		c.ob(rule, fn, "parsed value is returned only when inside a constant range", at[0], ok && n > 0,
+			fmt.Sprintf("the raw strconv.Atoi result reaches the return on %d merge edge(s), each only past a constant lower-bound and a constant upper-bound comparison (upper=%d lower=%d tests)", n, len(upper), len(lower)))
+	}
+}
+
+// predEdgeReachable: can control flow from entry traverse the edge pred->succ under the cut?
+func predEdgeReachable(fn *ssa.Function, pred, succ *ssa.BasicBlock, c *cut) bool {
+	r := reachFromEntry(fn, c)
+	if len(pred.Instrs) == 0 {
+		return false
+	}
+	last := pred.Instrs[len(pred.Instrs)-1]
+	if !r.has(last) {
+		return false
+	}
+	for i, s := range pred.Succs {
+		if s == succ && !c.edges[edge{pred, i}] {
+			return true
+		}
+	}
+	return false
+}
